@@ -446,7 +446,7 @@ impl<Writer: Write> Mp4Writer<Writer> {
     pub(crate) fn max_end_pts(&self) -> Option<u64> {
         fn track_end(samples: &[SampleInfo], last_delta: Option<u32>) -> Option<u64> {
             let last = samples.last()?;
-            Some(last.pts + u64::from(last_delta.unwrap_or(0)))
+            Some(last.pts.saturating_add(u64::from(last_delta.unwrap_or(0))))
         }
 
         let video_end = track_end(&self.video_samples, self.video_last_delta);
